@@ -10,6 +10,8 @@
 //	param <signer> <key> <wellformed> <registered> <undecodable | plain:<digest> | acl:<digest>:<k=a,…> | owner:<digest>:<addr>> <fee> => <code> <codespace> G
 //	dao <signer> <to> <amount> <burn> <fee> => <code> <codespace> G
 //	upgrade <signer> <fee> => <code> <codespace> G
+//	kparam <signer> <key> <wellformed> <registered> <value…> <height> <splitActive> => <code|panic> <codespace> G
+//	       (-mode heights: the real gov handler called with ctx.WithBlockHeight(height); no ante, no fee)
 package main
 
 import (
@@ -25,9 +27,11 @@ import (
 	"time"
 
 	"github.com/pokt-network/pocket-core/app"
+	"github.com/pokt-network/pocket-core/codec"
 	sdk "github.com/pokt-network/pocket-core/types"
 	appsTypes "github.com/pokt-network/pocket-core/x/apps/types"
 	authTypes "github.com/pokt-network/pocket-core/x/auth/types"
+	"github.com/pokt-network/pocket-core/x/gov"
 	govTypes "github.com/pokt-network/pocket-core/x/gov/types"
 	nodesTypes "github.com/pokt-network/pocket-core/x/nodes/types"
 	dbm "github.com/tendermint/tm-db"
@@ -83,6 +87,7 @@ func main() {
 	seed := flag.Uint64("seed", 1, "")
 	nn := flag.Int("n", 500, "")
 	out := flag.String("out", "c36.trace", "")
+	mode := flag.String("mode", "txs", "txs | heights")
 	flag.Parse()
 	t := gen.NewTrace(*out)
 	r := gen.New(*seed)
@@ -120,8 +125,19 @@ func main() {
 		s.End()
 		s.Commit()
 	}
-	t.Line("init", false, "init %s => %s", mods, dumpGov(n, n.Ctx()))
 	signers := append(append([]chain.Key{}, owners...), w.Accts[0], w.Accts[1], w.Vals[0], w.Fresh[0])
+	if *mode == "heights" {
+		for n.Height < chain.FirstModernHeight { // the feature-activation hook has added its ACL entries
+			now = now.Add(time.Minute)
+			s.Begin(chain.Block{Time: now, Proposer: w.Vals[0].Addr})
+			s.End()
+			s.Commit()
+		}
+		t.Line("init", false, "init %s => %s", mods, dumpGov(n, n.Ctx()))
+		runHeights(t, r, n, owners, signers, *nn)
+		return
+	}
+	t.Line("init", false, "init %s => %s", mods, dumpGov(n, n.Ctx()))
 	rcpts := []sdk.Address{w.Accts[0].Addr, w.Accts[2].Addr, owners[0].Addr, owners[1].Addr, w.Fresh[1].Addr, w.Fresh[2].Addr,
 		ak.GetModuleAddress(govTypes.DAOAccountName), ak.GetModuleAddress(authTypes.FeeCollectorName), w.Vals[1].Addr}
 	// (no key with an unknown subspace: for its ACL owner ModifyParam calls os.Exit)
@@ -376,6 +392,90 @@ func main() {
 		}
 		s.End()
 		s.Commit()
+	}
+	t.Close(nil)
+}
+
+// runHeights: every ACL key x signer {owner, owner of another key, stranger} at the block heights the
+// handler hard-codes (the pos/MaxValidators freeze from 40000 until the validator split at 45353), by
+// calling the real gov handler with ctx.WithBlockHeight(h) on the real app's store.  Half of the calls
+// run with the upgrade globals of a chain that never stored a version upgrade (validator split active
+// only from 45353: the frozen window exists), half with the harness chain's own (split active).
+func runHeights(t *gen.Trace, r *gen.R, n *chain.Node, owners, signers []chain.Key, lines int) {
+	gk := n.App.VerifGovKeeper()
+	cdc := app.Codec()
+	handler := gov.NewHandler(gk)
+	heights := []int64{2, 39999, 40000, 40001, 45352, 45353, 45354, 100000}
+	special := []string{"pos/MaxValidators", "pos/MaxValidators", "gov/acl", "gov/upgrade", "gov/daoOwner", "pos/RelaysToTokensMultiplierMap", "pos/RelaysToTokensMultiplier"}
+	for i := 0; i < lines; i++ {
+		ctx := n.Ctx()
+		acl := gk.GetACL(ctx)
+		names := gk.GetAllParamNames(ctx)
+		vals := gk.GetAllParamNameValue(ctx)
+		key := acl[r.Intn(len(acl))].Key
+		if r.Chance(1, 3) {
+			key = special[r.Intn(len(special))]
+		}
+		signer := signers[r.Intn(len(signers))]
+		if r.Chance(2, 5) {
+			ow := acl.GetOwner(key)
+			for _, c := range signers {
+				if c.Addr.Equals(ow) {
+					signer = c
+				}
+			}
+		}
+		cur := vals[key]
+		var raw []byte
+		val := "undecodable"
+		switch {
+		case r.Chance(1, 6):
+			raw = []byte(`{"x":`)
+		case key == "gov/acl":
+			na := append(govTypes.ACL{}, acl...)
+			if r.Bool() {
+				na.SetOwner(na[r.Intn(len(na))].Key, owners[r.Intn(3)].Addr)
+			}
+			raw, _ = cdc.MarshalJSON(na)
+			val = fmt.Sprintf("acl:%s:%s", digest(sdk.MustSortJSON(raw)), aclStr(na))
+		case key == "gov/daoOwner":
+			a := owners[r.Intn(3)].Addr
+			raw, _ = cdc.MarshalJSON(a)
+			val = fmt.Sprintf("owner:%s:%s", digest(sdk.MustSortJSON(raw)), a.String())
+		default:
+			raw = []byte(cur)
+			if m := numStr.FindStringSubmatch(cur); m != nil {
+				v, _ := strconv.ParseInt(m[1], 10, 64)
+				if v%2 == 0 {
+					v++
+				} else {
+					v--
+				}
+				raw = []byte(fmt.Sprintf(`"%d"`, v))
+			}
+			val = "plain:" + digest(sdk.MustSortJSON(raw))
+		}
+		h := heights[r.Intn(len(heights))]
+		// globals of a chain without a stored version upgrade, for this call only
+		uh, ouh := codec.UpgradeHeight, codec.OldUpgradeHeight
+		legacy := r.Bool() && h >= 30024
+		if legacy {
+			codec.UpgradeHeight, codec.OldUpgradeHeight = math.MaxInt64, 0
+		}
+		split := n.App.VerifCodec().IsAfterValidatorSplitUpgrade(h)
+		_, reg := names[key]
+		code, cs := "panic", "-"
+		func() {
+			defer func() { recover() }()
+			res := handler(ctx.WithBlockHeight(h), govTypes.MsgChangeParam{FromAddress: signer.Addr, ParamKey: key, ParamVal: raw}, nil)
+			code, cs = fmt.Sprint(uint32(res.Code)), string(res.Codespace)
+			if cs == "" {
+				cs = "-"
+			}
+		}()
+		codec.UpgradeHeight, codec.OldUpgradeHeight = uh, ouh
+		t.Line(fmt.Sprintf("kparam/h%d/%s%s", h, cs, code), code == "0", "kparam %s %s %v %v %s %d %v => %s %s %s",
+			signer.Addr, key, strings.Contains(key, "/"), reg, val, h, split, code, cs, dumpGov(n, n.Ctx()))
 	}
 	t.Close(nil)
 }
